@@ -81,6 +81,11 @@ pub fn gen_plan(rng: &mut Rng, tier: &str, conc: bool) -> Plan {
     Plan { cfg, keys, n_ops, no_deletes: no_deletes && simple || no_deletes, gates: rng.chance(2, 3), seed: rng.next(), owners: if conc { 3 + rng.usize(4) } else { 0 } }
 }
 
+/// bytes an entry with a value of `size` bytes occupies on the device (entries are page aligned)
+fn on_disk(size: usize) -> usize {
+    (size.max(value::MIN_LEN) + 36 + 16).div_ceil(PAGE) * PAGE
+}
+
 fn is_clean_write(cfg: &HCfg, w: &WriteRec) -> bool {
     w.partition >= cfg.tombstone as u32 && w.offset == 0 && w.len == PAGE && w.data.len() == PAGE && w.data.iter().all(|b| *b == 0)
 }
@@ -137,6 +142,16 @@ pub fn check_generations(cfg: &HCfg, writes: &[WriteRec], fifo_clause: bool) -> 
                     ));
                     break;
                 }
+            }
+            // the block must not be handed to its next writer before the clean page is on the device: a write
+            // issued while the clean page is still in flight can be overtaken by it (the zero page then wipes the
+            // new generation's first blob index)
+            let c_end = if w.t_complete == 0 { u64::MAX } else { w.t_complete };
+            if let Some(x) = writes.iter().find(|x| x.partition == w.partition && x.seq != w.seq && !is_clean_write(cfg, x) && w.t_issue < x.t_issue && x.t_issue < c_end) {
+                problems.push((
+                    "block-reused-before-clean-page-completed".into(),
+                    format!("block partition {}: write #{} {}+{} was issued (t={}) while the clean page #{} of the same block (issued t={}, completed t={}) was still in flight", w.partition, x.seq, x.offset, x.len, x.t_issue, w.seq, w.t_issue, w.t_complete),
+                ));
             }
             if let Some(mut g) = open.remove(&w.partition) {
                 g.cleaned_at = Some(clean_no);
@@ -269,6 +284,9 @@ pub async fn run_churn(plan: &Plan) -> Outcome {
     let mut rng = Rng::derive(plan.seed, 9);
     let mut i = 0usize;
     let mut gate_age = 0usize;
+    let mut held_bytes = 0usize;
+    let mut pending_bytes = 0usize;
+    let held_cap = cfg.blocks * cfg.block_size / 4;
     let mut stalled = false;
     while i < plan.n_ops && !stalled {
         let k = rng.below(plan.keys);
@@ -294,10 +312,31 @@ pub async fn run_churn(plan: &Plan) -> Outcome {
             97 => HOp::Settle,
             _ => HOp::Get { k },
         };
-        // gates never stay closed for long: release held writes one by one in a seeded order
+        // gates never stay closed for long: release held writes one by one in a seeded order.  A single flush batch
+        // must stay well below the device (a batch larger than the device is reclaimed while it is being written),
+        // so the gate also opens as soon as a quarter of the device is queued behind it.
+        if let HOp::Insert { size, .. } = &op {
+            if ex.writes_held {
+                held_bytes += on_disk(*size);
+            }
+            // client-side backpressure (same rule as in owners mode)
+            pending_bytes += on_disk(*size);
+            if pending_bytes + 2 * PAGE > held_cap {
+                ex.release_all();
+                held_bytes = 0;
+                gate_age = 0;
+                if bounded(&io, "wait()", ex.cache().storage().wait()).await.is_err() {
+                    out.problems.push(("stall:wait".into(), "wait() during the churn did not return although the device was idle".into()));
+                    stalled = true;
+                    break;
+                }
+                pending_bytes = 0;
+            }
+        }
         if ex.writes_held {
             gate_age += 1;
-            if gate_age > 2 + rng.usize(6) {
+            if gate_age > 2 + rng.usize(6) || held_bytes + 2 * PAGE > held_cap {
+                held_bytes = 0;
                 let mut held = io.held_writes();
                 rng.shuffle(&mut held);
                 for s in held {
@@ -465,6 +504,10 @@ pub async fn run_owners(plan: &Plan) -> Outcome {
     let owners = plan.owners.max(2);
     let per = plan.n_ops / owners;
     let mut handles = vec![];
+    // bytes inserted since the io write gate was closed (same rule as in churn mode: a batch stays below a quarter of the device)
+    let held_bytes = Arc::new(std::sync::atomic::AtomicUsize::new(0));
+    let pending_bytes = Arc::new(std::sync::atomic::AtomicUsize::new(0));
+    let held_cap = cfg.blocks * cfg.block_size / 4;
     for t in 0..owners {
         let cache = cache.clone();
         let io = io.clone();
@@ -472,11 +515,22 @@ pub async fn run_owners(plan: &Plan) -> Outcome {
         let seed = plan.seed;
         let no_deletes = plan.no_deletes;
         let gates = plan.gates;
+        let held_bytes = held_bytes.clone();
+        let pending_bytes = pending_bytes.clone();
+        let hlog = ctl.log.clone();
         handles.push(tokio::spawn(async move {
+            // (call, return) stamps of the insert of the latest version of each own key
+            let mut insert_span: BTreeMap<u64, (u64, u64)> = BTreeMap::new();
+            // (call, return, key, kind) of every lookup (kind 0) and remove (kind 1): needed to tell a load that was in
+            // flight across a remove from an unexplained stale hit
+            let mut spans: Vec<(u64, u64, u64, u8)> = vec![];
+            let mut remove_span: BTreeMap<u64, (u64, u64)> = BTreeMap::new();
             let mut rng = Rng::derive(seed, 100 + t as u64);
             let mut latest: BTreeMap<u64, Option<Stamp>> = BTreeMap::new();
             let mut versions: BTreeMap<u64, u32> = BTreeMap::new();
             let mut problems: Vec<(String, String)> = vec![];
+            let debug = std::env::var("VH_DEBUG").is_ok();
+            let mut evlog: Vec<(u64, u64, u64, String)> = vec![];
             let (mut lookups, mut judged, mut disk, mut mem, mut misses) = (0u64, 0u64, 0u64, 0u64, 0u64);
             let own: Vec<u64> = (0..keys).filter(|k| (*k as usize) % owners == t).collect();
             for _ in 0..per {
@@ -491,19 +545,46 @@ pub async fn run_owners(plan: &Plan) -> Outcome {
                             1 => 28 + rng.usize(2 * PAGE),
                             _ => 28 + rng.usize(3000),
                         };
+                        if held_bytes.fetch_add(on_disk(size), Ordering::SeqCst) + on_disk(size) + 2 * PAGE > held_cap {
+                            io.release_writes();
+                        }
+                        // client-side backpressure: never more than a quarter of the device queued for the disk tier
+                        // (a flush batch that spans most of the device is reclaimed while it is still being written)
+                        if pending_bytes.fetch_add(on_disk(size), Ordering::SeqCst) + on_disk(size) + 2 * PAGE > held_cap {
+                            io.release_writes();
+                            cache.storage().wait().await;
+                            pending_bytes.store(0, Ordering::SeqCst);
+                        }
+                        let t0 = io.now();
                         drop(cache.insert(k, value::make(s, size, false)));
+                        insert_span.insert(k, (t0, io.now()));
+                        if debug {
+                            evlog.push((t0, io.now(), k, format!("T{t} insert v{} size {size}", s.version)));
+                        }
                         latest.insert(k, Some(s));
                     }
                     55..=59 if !no_deletes => {
                         let k = *rng.pick(&own);
+                        let t0 = io.now();
                         cache.remove(&k);
+                        let t1 = io.now();
+                        spans.push((t0, t1, k, 1));
+                        remove_span.insert(k, (t0, t1));
+                        if debug {
+                            evlog.push((t0, io.now(), k, format!("T{t} remove")));
+                        }
                         latest.insert(k, None);
                     }
                     60..=84 => {
                         let k = *rng.pick(&own);
+                        let t0 = io.now();
                         let r = cache.get(&k).await;
+                        spans.push((t0, io.now(), k, 0));
                         lookups += 1;
                         let src = r.as_ref().ok().and_then(|e| e.as_ref().map(|e| format!("{:?}", e.source())));
+                        if debug {
+                            evlog.push((t0, io.now(), k, format!("T{t} own get -> {:?} src {src:?}", r.as_ref().map(|e| e.as_ref().map(|e| crate::value::parse(e.value()).ok())))));
+                        }
                         match hyb::see(k, r) {
                             Seen::Miss => misses += 1,
                             Seen::Error(_) => {}
@@ -513,16 +594,33 @@ pub async fn run_owners(plan: &Plan) -> Outcome {
                                 if src.as_deref() == Some("Disk") { disk += 1 } else { mem += 1 }
                                 match latest.get(&k).copied().flatten() {
                                     Some(want) if want == s => {}
-                                    Some(want) => problems.push(("lookup:stale-old".into(), format!("owner {t} (only writer of key {k}): get returned {s:?} from {src:?} but its most recent completed insert is {want:?}"))),
-                                    None => problems.push(("lookup:stale-removed".into(), format!("owner {t} (only writer of key {k}): get returned {s:?} from {src:?} although its most recent completed update is a remove"))),
+                                    Some(want) => {
+                                        // known mechanism: the hybrid insert publishes to memory first and hands the entry to the
+                                        // disk tier afterwards; if the entry is evicted from memory in between, it is in neither tier
+                                        // and a lookup falls through to (or joins a load of) the older disk copy
+                                        let (_, t_ret) = insert_span.get(&k).copied().unwrap_or((0, 0));
+                                        let limbo = hlog.leaves.lock().iter().any(|l| l.stamp == Some(want) && l.reason == crate::mem::Reason::Evict && l.t < t_ret);
+                                        let sig = if limbo { "lookup:stale-old:newest-version-evicted-from-memory-before-its-insert-returned" } else { "lookup:stale-old" };
+                                        problems.push((sig.into(), format!("owner {t} (only writer of key {k}): get returned {s:?} from {src:?} but its most recent completed insert is {want:?}{}", if limbo { " (that version was evicted from memory before insert() had handed it to the disk tier and returned)" } else { "" })))
+                                    }
+                                    None => {
+                                        let (r0, r1) = remove_span.get(&k).copied().unwrap_or((0, 0));
+                                        // classified after all tasks have finished (needs the other tasks' lookups)
+                                        problems.push((format!("lookup:stale-removed@{k}@{r0}@{r1}"), format!("owner {t} (only writer of key {k}): get returned {s:?} from {src:?} although its most recent completed update is a remove (remove() spanned t={r0}..{r1})")))
+                                    }
                                 }
                             }
                         }
                     }
                     85..=94 => {
                         let k = rng.below(keys);
+                        let t0 = io.now();
                         let r = cache.get(&k).await;
+                        spans.push((t0, io.now(), k, 0));
                         lookups += 1;
+                        if debug {
+                            evlog.push((t0, io.now(), k, format!("T{t} foreign get -> {:?} src {:?}", r.as_ref().map(|e| e.as_ref().map(|e| crate::value::parse(e.value()).ok())), r.as_ref().ok().and_then(|e| e.as_ref().map(|e| e.source())))));
+                        }
                         match hyb::see(k, r) {
                             Seen::Corrupt(why) => problems.push(("lookup:foreign-or-corrupt".into(), format!("task {t}: get({k}) returned bytes that are not a value of this key: {why}"))),
                             Seen::Hit(s) if s.key != k => problems.push(("lookup:foreign".into(), format!("task {t}: get({k}) returned {s:?}"))),
@@ -532,6 +630,7 @@ pub async fn run_owners(plan: &Plan) -> Outcome {
                         }
                     }
                     95..=96 if gates && t == 0 => {
+                        held_bytes.store(0, Ordering::SeqCst);
                         io.hold_writes();
                         tokio::time::sleep(Duration::from_millis(1 + rng.below(4))).await;
                         let mut held = io.held_writes();
@@ -541,14 +640,19 @@ pub async fn run_owners(plan: &Plan) -> Outcome {
                         }
                         io.release_writes();
                     }
-                    97 => cache.memory().evict_all(),
+                    97 => {
+                        if debug {
+                            evlog.push((io.now(), io.now(), u64::MAX, format!("T{t} evict_all")));
+                        }
+                        cache.memory().evict_all()
+                    }
                     _ => tokio::task::yield_now().await,
                 }
                 if problems.len() > 3 {
                     break;
                 }
             }
-            (problems, lookups, judged, disk, mem, misses)
+            (problems, lookups, judged, disk, mem, misses, evlog, spans)
         }));
     }
     let all = bounded(&io, "the owner tasks", async {
@@ -562,12 +666,17 @@ pub async fn run_owners(plan: &Plan) -> Outcome {
     io.release_writes();
     io.release_reads();
     let mut stalled = false;
+    let mut all_events: Vec<(u64, u64, u64, String)> = vec![];
+    let mut all_spans: Vec<(u64, u64, u64, u8)> = vec![];
+    let mut raw_problems: Vec<(String, String)> = vec![];
     match all {
         Ok(rs) => {
             for r in rs {
                 match r {
-                    Ok((p, l, j, d, m, mi)) => {
-                        out.problems.extend(p.into_iter().take(2));
+                    Ok((p, l, j, d, m, mi, ev, sp)) => {
+                        all_events.extend(ev);
+                        all_spans.extend(sp);
+                        raw_problems.extend(p.into_iter().take(3));
                         out.lookups += l;
                         out.judged += j;
                         out.hits_disk += d;
@@ -591,6 +700,22 @@ pub async fn run_owners(plan: &Plan) -> Outcome {
             stalled = true;
         }
     }
+    // classify: a removed value that comes back because a disk load of the key (any task's lookup) was in flight across
+    // the remove is the known "remove does not cancel an in-flight load" mechanism; anything else stays unexplained
+    for (sig, detail) in raw_problems {
+        if let Some(rest) = sig.strip_prefix("lookup:stale-removed@") {
+            let f: Vec<u64> = rest.split('@').filter_map(|x| x.parse().ok()).collect();
+            let (k, r0, r1) = (f[0], f[1], f[2]);
+            let across = all_spans.iter().any(|(a, b, key, kind)| *key == k && *kind == 0 && *a < r1 && *b > r0);
+            if across {
+                out.problems.push(("lookup:stale-removed:disk-load-in-flight-across-the-remove".into(), format!("{detail}; a lookup of the key by another task overlapped that remove")));
+            } else {
+                out.problems.push(("lookup:stale-removed".into(), detail));
+            }
+        } else {
+            out.problems.push((sig, detail));
+        }
+    }
     if !stalled {
         match bounded(&io, "wait()", cache.storage().wait()).await {
             Ok(()) => {}
@@ -612,6 +737,16 @@ pub async fn run_owners(plan: &Plan) -> Outcome {
                 stalled = true;
             }
             Err((false, why)) => out.inconclusive.push(why),
+        }
+    }
+    if std::env::var("VH_DEBUG").is_ok() && !out.problems.is_empty() {
+        all_events.sort();
+        eprintln!("PROBLEMS {:?}", out.problems);
+        for (a, b, k, what) in &all_events {
+            eprintln!("  [{a}..{b}] key {k}: {what}");
+        }
+        for w in io.snapshot_writes().iter() {
+            eprintln!("   #{} part {} off {} len {} t {}..{} clean={} entries(hash,seq)={:?}", w.seq, w.partition, w.offset, w.len, w.t_issue, w.t_complete, is_clean_write(&cfg, w), entries_in_write(w));
         }
     }
     finish_log(plan, &io, &mut out);
